@@ -136,6 +136,10 @@ fn alphabet(t: &Tiny, w: &World) -> Vec<Op> {
         } else if let Some(r) = t.bid_fee {
             ops.push(Op::Migrate { msg: json!({"bid_fee_rate": r, "bid_fee_account": "feeb"}) });
         }
+        // the approver list replaced by a migration while an approved ask is open
+        if book.asks.values().any(|a| matches!(a.class, AskClass::Ready { .. })) && cfg.approvers.iter().any(|a| a == "appr1") {
+            ops.push(Op::Migrate { msg: json!({"approvers": ["dave"]}) });
+        }
         if let Some(f) = &cfg.ask_fee {
             if f.account == "feea" {
                 ops.push(Op::Migrate { msg: json!({"ask_fee_rate": f.rate, "ask_fee_account": "alice"}) });
